@@ -28,8 +28,8 @@ ASSUMPTIONS = [
 
 def budget(tier):
     if tier == 'thorough':
-        return {'seeds': 60000, 'wall': 840, 'chunk': 100}
-    return {'seeds': 5000, 'wall': 150, 'chunk': 40}
+        return {'seeds': 400000, 'wall': 900, 'chunk': 100}
+    return {'seeds': 30000, 'wall': 200, 'chunk': 50}
 
 
 INT_KEYS = [['T', 'T', [['%', 2]]], ['T', 'T', [['%', 3]]], ['fn', 'mod3'], ['fn', 'is_even'], ['fn', 'tostr'],
